@@ -148,6 +148,8 @@ class Fn:
         self.locals = b["locals"]
         self.blocks = b["blocks"]
         self.n = len(self.blocks)
+        if rec.get("ret") is None and self.locals:
+            rec["ret"] = self.locals[0].get("ty")        # closures: the type of the return place
         self._succ = None
         self._defs = None
         self._origin_cache = {}
